@@ -773,9 +773,22 @@ class World(BaseWorld):
         return issued, True
 
     def retire(self, i):
-        """After an in-place operator raised, only its target is released from checking."""
-        self.pool.pop(i)
+        """After an in-place operator raised, WHAT its target now holds is unspecified (no atomicity is promised), so the
+        reference is re-read from the object.  The object itself stays in the pool: whatever it holds, its bookkeeping must
+        still bound it (C14) and it must keep behaving like a model -- the caller caught the exception and carries on."""
+        s = self.pool[i]
         self.probe("poisoned_by_exception")
+        try:
+            s.shadow = self.stored_poly(s)
+            if s.t in CONSTRAINED:
+                s.cons = self.read_constraints(s.obj)
+                if self.anc_vars(s.shadow) - s.issued:
+                    s.foreign = True
+        except Violation:
+            self.pool.pop(i)
+            raise
+        self.fault("carried_on_after_exception_in_inplace_op")
+        self.check_book(s, "after a failed in-place operation", force=True)
 
     def pow_status(self, A, k):
         if A.t not in DEG2:
